@@ -207,7 +207,7 @@ def _shard(arg):
 def run(ctx):
     jobs = []
     if ctx.quick:
-        for s in range(16):
+        for s in range(12):
             jobs.append(("c28q%d" % s, _random_groups(ctx.seed, s, 0, N_ARITH_Q, N_CMP_Q)))
     else:
         enum = _enum_groups(ctx.seed)
@@ -226,7 +226,7 @@ def run(ctx):
                 "independent subset of {__op__,__rop__,__iop__} with bodies tag/NotImplemented/NotImplemented-for-foreign; "
                 "hierarchy in single/cdef-sub-inherit/cdef-sub-override/py-sub-inherit/py-sub-override) and comparison groups "
                 "(subset of the six rich comparisons, bodies tag/value/NI/NI-foreign, total_ordering on/off, __hash__ on/off); "
-                "%d+%d groups per module; every operand pair (BB BD DB DD BO OB OO DO OD, int/list on either side) in binary, "
+                "%d+%d groups per module, 12 modules per quick run; every operand pair (BB BD DB DD BO OB OO DO OD, int/list on either side) in binary, "
                 "in-place and pow(x,y,m) forms; oracle = identical bodies as Python classes under CPython (value, exception "
                 "type, call LOG). non-trivial = an operand class lacks one of the methods of the family, or a body can return "
                 "NotImplemented, or operand types differ; distinct by (operator, form, pair, hierarchy, method configs)"
